@@ -79,6 +79,42 @@ def report(rep, results, label):
             yield sc, tr, at, prop, clause, desc
 
 
+def reload_jobs(tier, rng):
+    from . import gen
+    vi, pi = [], []
+    n = 5 if tier == "quick" else 60
+    for k in range(n):
+        for kind in ("VI", "SAVI", "SAVIshuffle", "RVI", "PVI", "PI"):
+            shuffle = kind == "SAVIshuffle"
+            kd = "SAVI" if shuffle else kind
+            if kd == "RVI":
+                m, g = gen.unichain(rng, ns=rng.randint(2, 5), PD=2, v0max=rng.choice([0, 2])), [1, 1]
+            elif kd == "PVI":
+                m, g = gen.ring(rng, rng.randint(2, 3), extra=rng.randint(0, 3), v0max=1), [1, 1]
+            else:
+                m = gen.union(rng, rng.randint(2, 5), PD=rng.choice([1, 2]), na=2, ne=rng.choice([1, 2]), rmax=3,
+                              v0max=rng.choice([0, 2]), plain=rng.random() < 0.5, chain=rng.random() < 0.5)
+                g = rng.choice([[1, 2], [1, 4]])
+            first = rng.choice([1, 2, 3, 5])
+            calls = rng.choice([[first, 60], [first, 2, 60], [first, 1, 1, 60]])
+            before = sorted(rng.sample(range(1, len(calls)), rng.randint(1, len(calls) - 1)))
+            job = {"mdp": m, "kind": kd, "gamma": g, "eps": [1, rng.choice([1, 2, 3])], "test": rng.choice(["span", "max_diff"]),
+                   "calls": calls, "mbs": rng.choice([2, 3, 1024]), "cert": kd in ("VI", "SAVI", "PI", "RVI"),
+                   "reload": {"before_calls": before, "freq": rng.choice([1, 2, 3]), "keep": rng.choice([1, 2, 5]),
+                              "async": rng.random() < 0.5},
+                   "tag": f"reload-{kind}{k}"}
+            if kd == "SAVI":
+                job.update({"shuffle": shuffle, "seed": rng.randrange(1000)})
+            if kd == "PVI":
+                job.update({"period": rng.randint(2, 3), "clear": False})
+            if kd == "PI":
+                job.update({"max_eval_iter": rng.choice([2, 30]), "reset": rng.random() < 0.3})
+                pi.append(job)
+            else:
+                vi.append(job)
+    return vi, pi
+
+
 def run(tier):
     rep = C.Report("C09", tier)
     rng = random.Random(C.seed() + 9)
@@ -100,11 +136,27 @@ def run(tier):
     for sc, tr, at, prop, clause, desc in report(rep, results, "C09"):
         rep.violation(f"{prop} {clause} :: {desc}", {"scenario": sc, "clause": clause, "event_index": at,
                                                         "event": tr["ev"][at - 1] if 0 < at <= len(tr["ev"]) else None})
+    # ---- resume inside exactly judged runs (table MDPs, dyadic arithmetic): between two solve() calls a NEW solver
+    # instance loads the latest checkpoint and continues; SolverTrace / PITrace recompute every sweep, measure, stop
+    # and (periodic) history use from the state the previous instance ended with.  With state shuffling the resumed
+    # run draws other permutations (the key is not checkpointed): every sweep is still recomputed for its own
+    # permutation and, at convergence, the documented error bound is checked with a TLC-verified certificate.
+    from . import solverlib
+    vi_jobs, pi_jobs = reload_jobs(tier, rng)
+    for jobs, module in ((vi_jobs, "SolverTrace"), (pi_jobs, "PITrace")):
+        j2, traces = solverlib.run_jobs(jobs)
+        for j, t in zip(j2, traces):
+            n_begin = sum(1 for e in t.get("ev", []) if e["e"] == "begin")
+            if "crash" not in t and t.get("complete") and n_begin < 2:
+                raise C.MachineryError(f"reload job {j.get('tag')} did not reach its second call")
+        solverlib.judge(rep, j2, traces, module=module, label="C09")
+    rep.extra["exactly_judged_runs_resumed_from_a_checkpoint"] = len(vi_jobs) + len(pi_jobs)
     for sc, tr, _ in results[:3]:
         rep.sample({"scenario": sc["name"], "events": [{k: e[k] for k in ("e", "iter", "vtag", "step", "fin") if e[k] not in (0, [], "")}
                                                       for e in tr["ev"][:14]]})
     rep.assumptions = ["bitwise reproducibility of the platform across processes (checked: the reference tags every sweep)",
-                       "semi-async with shuffling is excluded (PRNG key is not checkpointed; only the error bound is promised)"]
+                       "semi-async with shuffling: not part of the tagged scenarios (the key is not checkpointed); its resumed "
+                       "runs are judged exactly sweep by sweep and against the error bound in the reload jobs"]
     rep.extra["machinery_retries"] = list(ckptlib.RETRIES)
     rep.extra["scenarios_skipped_reference_did_not_converge"] = list(ckptlib.SKIPPED)
     return rep.finish()
